@@ -122,7 +122,8 @@ theorem parseUsize_digits (n : Nat) (h : n ≤ 18446744073709551615) : parseUsiz
 
 /-! ### the parser on the pieces of a file -/
 
-def Body (p : P) : Prop := p.st = .startLine ∨ p.st = .clause
+/-- in the body of a CNF file: between tokens, at the start of a line or inside a clause -/
+def Body (p : P) : Prop := (p.st = .startLine ∨ p.st = .clause) ∧ p.wcnf = false
 
 theorem isWs_not_special {b : Nat} (h : isWs b = true) :
     (b == 112) = false ∧ (b == 99) = false ∧ isDigit19 b = false ∧ (b == 48) = false ∧ (b == 45) = false := by
@@ -209,12 +210,13 @@ theorem run_zero (p : P) (hb : Body p) (h : (nv, nc) ∈ p.hdr) :
     run p [48] = .ok { p with out := p.out ++ [p.cur], cur := [] } := by
   have hh : p.hdr = some (nv, nc) := h
   have hw : isWs 48 = false := by decide
-  rcases hb with hst | hst
+  obtain ⟨hb1, hwf⟩ := hb
+  rcases hb1 with hst | hst
   · have e1 : ((48 : Nat) == 112) = false := by decide
     have e2 : ((48 : Nat) == 99) = false := by decide
     have e3 : isDigit19 48 = false := by decide
-    simp [run, step, hst, hw, e1, e2, e3, finishClause, hh]
-  · simp [run, step, hst, finishClause, hh]
+    simp [run, step, hst, hw, e1, e2, e3, finishClause, hh, hwf]
+  · simp [run, step, hst, finishClause, hh, hwf]
 
 /-- a literal followed by one white-space byte is added to the current clause -/
 theorem run_literal (p : P) (hb : Body p) (z : Int) (hz : z ≠ 0)
@@ -259,7 +261,7 @@ theorem run_literal (p : P) (hb : Body p) (z : Int) (hz : z ≠ 0)
       simp only [beq_eq_false_iff_ne, ne_eq]; omega
     simp only [renderLit, hpos, if_true, hd, List.cons_append, run]
     have hstep : step p d = .ok (startLiteral p d true) := by
-      rcases hb with hst | hst
+      rcases hb.1 with hst | hst
       · simp [step, hst, hdw, hd112, hd99, h19]
       · simp [step, hst, hd48, hd10, hdw, h19]
     rw [hstep]
@@ -278,7 +280,7 @@ theorem run_literal (p : P) (hb : Body p) (z : Int) (hz : z ≠ 0)
     simp only [renderLit, hpos, if_false, hd, List.cons_append, run]
     have h45w : isWs 45 = false := by decide
     have hstep : step p 45 = .ok (startLiteral p 45 false) := by
-      rcases hb with hst | hst
+      rcases hb.1 with hst | hst
       · have e1 : ((45 : Nat) == 112) = false := by decide
         have e2 : ((45 : Nat) == 99) = false := by decide
         have e3 : isDigit19 45 = false := by decide
@@ -347,9 +349,10 @@ def absOf (p : P) : A := { start := p.st == .startLine, cur := p.cur, out := p.o
 theorem run_ws_body (p : P) (hb : Body p) (w : List Nat) (hw : w.all isWs = true) :
     ∃ p', run p w = .ok p' ∧ Body p' ∧ p'.hdr = p.hdr ∧ p'.cur = p.cur ∧ p'.out = p.out ∧
       (p'.st == .startLine) = ((p.st == .startLine) || w.contains 10) := by
-  rcases hb with hst | hst
-  · exact ⟨p, run_ws_startLine p hst w hw, Or.inl hst, rfl, rfl, rfl, by simp [hst]⟩
-  · refine ⟨_, run_ws_clause p hst w hw, ?_, rfl, rfl, rfl, ?_⟩
+  obtain ⟨hb1, hwf⟩ := hb
+  rcases hb1 with hst | hst
+  · exact ⟨p, run_ws_startLine p hst w hw, ⟨Or.inl hst, hwf⟩, rfl, rfl, rfl, by simp [hst]⟩
+  · refine ⟨_, run_ws_clause p hst w hw, ⟨?_, hwf⟩, rfl, rfl, rfl, ?_⟩
     · by_cases h : 10 ∈ w
       · left; simp [h]
       · right; simp [h]
@@ -386,6 +389,7 @@ theorem run_item (p : P) (hb : Body p) (hh : p.hdr.isSome = true) (i : Item) (ho
       have hl := run_literal p hb z hz hrange w hws.1
       let q : P := { p with st := if w == 10 then .startLine else .clause, cur := p.cur ++ [z], buf := renderLit z }
       have hbq : Body q := by
+        refine ⟨?_, hb.2⟩
         by_cases h : w = 10
         · left; simp [q, h]
         · right; have : (w == 10) = false := by simpa using h
@@ -614,12 +618,12 @@ theorem layout_independent (pre body : List Item) (sp1 sp2 sp3 : List Nat) (nv :
     have := parseHeader_headerBytes sp1 sp2 sp3 nv clauses.length h1 h2 h2ne h3 hnv hnc
     rw [hhb] at this
     exact this
-  simp only [List.singleton_append, run, step, beq_self_eq_true, if_true, initFormula]
+  simp only [List.singleton_append, run, step, beq_self_eq_true, if_true, initFormula, Bool.false_eq_true, if_false]
   have hph' : parseHeader (112 :: tail) = some (nv, clauses.length) := hph
   simp only [hph']
   -- the body
   let p0 : P := { st := .startLine, buf := 112 :: tail, cur := [], hdr := some (nv, clauses.length), out := [] }
-  obtain ⟨p', hr, hb', hh', ha'⟩ := run_items body p0 (Or.inl rfl) rfl hbody
+  obtain ⟨p', hr, hb', hh', ha'⟩ := run_items body p0 ⟨Or.inl rfl, rfl⟩ rfl hbody
   have hr' : run { st := PS.startLine, buf := 112 :: tail, cur := [], hdr := some (nv, clauses.length), out := [] }
       (renderAll body) = .ok p' := hr
   simp only [List.nil_append]
@@ -631,7 +635,7 @@ theorem layout_independent (pre body : List Item) (sp1 sp2 sp3 : List Nat) (nv :
     have e2 : (absOf p').out = (denotes body).out := by rw [ha']; rfl
     exact ⟨by rw [← hden.1, ← e1]; rfl, by rw [← hden.2, ← e2]; rfl⟩
   have hst' : (p'.st == PS.header) = false := by
-    rcases hb' with h | h <;> simp [h]
+    rcases hb'.1 with h | h <;> simp [h]
   have hhdr : p'.hdr = some (nv, clauses.length) := hh'
   unfold complete
   simp [hst', hhdr, hden'.1, hden'.2]
